@@ -427,6 +427,78 @@ func c20RefGraphs() []c20input {
 		comps := gen.S{"callbacks": gen.S{"C": gen.S{"{$request.body#/u}": gen.S{"$ref": "#/paths/~1a"}}}}
 		out = append(out, c20input{origin: "path-item-cycle: " + name, data: mk(comps, paths), both: true})
 		out = append(out, c20input{origin: "path-item-cycle+fs: " + name, data: mk(comps, paths), files: map[string]string{"root.json": string(mk(comps, paths))}, root: "root.json"})
+		// the same cycle inside an external document whose paths the root takes over
+		rootPaths := gen.S{}
+		for p := range paths {
+			rootPaths[p] = gen.S{"$ref": "ext.json#/paths/" + strings.ReplaceAll(p, "/", "~1")}
+		}
+		extRoot := mk(gen.S{}, rootPaths)
+		out = append(out, c20input{origin: "path-item-cycle in an external document: " + name, data: extRoot, files: map[string]string{"root.json": string(extRoot), "ext.json": string(mk(comps, paths))}, root: "root.json"})
+	}
+	// valid multi-file documents using every component kind at once (the trees of the reference-resolution and
+	// internalisation checks): internalising creates the collections of the root as it goes
+	for ti, t := range append(c16Special(), c02Special()...) {
+		out = append(out, c20input{origin: fmt.Sprintf("multi-file tree #%d (%s)", ti, t.Plans[0].Shape), data: []byte(t.Files[t.Root]), files: t.Files, root: t.Root})
+		// the same with one more collection already present in the root
+		for _, coll := range []string{"examples", "links", "headers", "schemas"} {
+			var root gen.S
+			if json.Unmarshal([]byte(t.Files[t.Root]), &root) != nil {
+				continue
+			}
+			comps, _ := root["components"].(gen.S)
+			if comps == nil {
+				comps = gen.S{}
+				root["components"] = comps
+			}
+			if _, has := comps[coll]; has {
+				continue
+			}
+			comps[coll] = gen.S{}
+			b, _ := json.Marshal(root)
+			files := map[string]string{}
+			for k, v := range t.Files {
+				files[k] = v
+			}
+			files[t.Root] = string(b)
+			out = append(out, c20input{origin: fmt.Sprintf("multi-file tree #%d (%s) with an empty components.%s", ti, t.Plans[0].Shape, coll), data: b, files: files, root: t.Root})
+		}
+	}
+	// one external reference at a time, at every position a Reference Object may stand (whole file and fragment), in a root whose
+	// components section holds exactly one, other, collection: internalising creates the collection it needs itself
+	for _, pos := range refPositions() {
+		for _, form := range []string{"whole-file", "fragment"} {
+			for xi, coll := range []string{"schemas", "parameters", "headers", "requestBodies", "responses", "examples", "links", "callbacks", "securitySchemes", "(none)"} {
+				tb := newTreeBuilder("w")
+				root := refRootSkeleton()
+				delete(root, "components")
+				plan := tb.plant(root, "w/root.json", pos, form, "direct", "plain")
+				comps, _ := root["components"].(gen.S)
+				if coll != "(none)" {
+					if comps == nil {
+						comps = gen.S{}
+						root["components"] = comps
+					}
+					if _, has := comps[coll]; !has {
+						comps[coll] = gen.S{}
+					}
+				}
+				t := tb.finish("w/root.json", root, []refPlan{plan})
+				if (xi+len(pos.name))%2 == 0 || coll == "examples" || coll == "links" || coll == "(none)" {
+					out = append(out, c20input{origin: fmt.Sprintf("single external %s (%s) at %s, root components hold only %s", pos.kind, form, pos.name, coll), data: []byte(t.Files[t.Root]), files: t.Files, root: t.Root})
+				}
+			}
+		}
+	}
+	// a property that stays unresolved ($ref: '#') and is named under required, on a schema that is entered again through a
+	// composition of itself while its default / example is checked
+	for _, kw := range []string{"default", "example"} {
+		for _, comp := range []string{"allOf", "anyOf", "oneOf"} {
+			self := "#/components/requestBodies/RB/content/application~1json/schema"
+			sch := gen.S{"type": "object", "required": gen.Arr("q"), "properties": gen.S{"p": gen.S{comp: gen.Arr(gen.S{"$ref": self}), kw: gen.S{}}, "q": gen.S{"$ref": "#"}}}
+			out = append(out, c20input{origin: "unresolved-required-property under self-" + comp + " with " + kw, data: mk(gen.S{"requestBodies": gen.S{"RB": gen.S{"content": gen.S{"application/json": gen.S{"schema": sch}}}}}, nil)})
+			sch2 := gen.S{"type": "object", "properties": gen.S{"p": gen.S{comp: gen.Arr(gen.S{"$ref": "#/components/schemas/S"}), kw: gen.S{}}, "q": gen.S{"$ref": "#"}, "r": gen.S{"$ref": "#/info"}}}
+			out = append(out, c20input{origin: "unresolved-property under self-" + comp + " with " + kw, data: mk(gen.S{"schemas": gen.S{"S": sch2}}, gen.S{"/s": gen.S{"post": gen.S{"requestBody": gen.S{"content": gen.S{"application/json": gen.S{"schema": gen.S{"$ref": "#/components/schemas/S"}}}}, "responses": gen.S{"200": gen.S{"description": "d", "content": gen.S{"application/json": gen.S{"schema": gen.S{"$ref": "#/components/schemas/S"}}}}}}}})})
+		}
 	}
 	// long chains
 	for _, n := range []int{10, 200, 1000} {
@@ -501,6 +573,10 @@ func c20Yaml() []c20input {
 		"types-list":        head + "components:\n  schemas:\n    A: {type: [], items: 3, properties: [], required: x, enum: 3, allOf: {}, additionalProperties: 7, pattern: 5, format: [], externalDocs: 1, xml: [], default: {a: [1, {b: null}]}}\n",
 	}
 	var out []c20input
+	// inputs made of white space only, of every kind Unicode has (YAML takes some for an empty document and refuses others)
+	for i, ws := range []string{"\t", "\v", "\f", "\r", "\u00a0", "\u1680", "\u2003", "\u2028", "\u3000", "\ufeff", " \t ", "\n\t\n", "\t\t{", "\u00a0{}"} {
+		docs[fmt.Sprintf("whitespace-only-%02d", i)] = ws
+	}
 	docs["empty-mapping-in-sequence"] = head + "tags:\n- {}\n- name: t\nservers:\n- {}\nsecurity:\n- {}\n"
 	docs["empty-sequence-items"] = head + "tags: []\nservers:\n-\n- ~\n- []\n- - {}\ncomponents:\n  schemas:\n    A: {allOf: [{}, {}], enum: [{}, [], [{}]], required: []}\n"
 	docs["flow-and-block-mix"] = head + "components:\n  parameters:\n    P: {name: p, in: query, schema: {type: array, items: {}}, examples: {}}\n  schemas:\n    A:\n      type: object\n      properties: {}\n      example:\n      - {}\n      - - {}\n"
